@@ -239,4 +239,45 @@ theorem annotation_has_no_influence (tbl : List Str) (h t : Str) (hh : ∀ x ∈
   unfold extractType
   rw [cut_header h ('[' :: t) hh (Or.inr ⟨t, rfl⟩), cutAnno_idem h hh]
 
+theorem contains_skip_blanks (a : Char) (p : Str) (ha : (a == ' ') = false) (ws l : Str) (hws : ∀ x ∈ ws, x = ' ') :
+    contains (a :: p) (ws ++ l) = contains (a :: p) l := by
+  induction ws with
+  | nil => rfl
+  | cons x xs ih =>
+    have hx : x = ' ' := hws x (by simp)
+    subst hx
+    simp only [List.cons_append, contains, isPrefix, ha, Bool.false_and, Bool.false_or]
+    exact ih (fun y hy => hws y (by simp [hy]))
+
+theorem loop_skip_blanks (tbl : List Str) (htbl : ∀ v ∈ tbl, ∃ a p, v = a :: p ∧ (a == ' ') = false)
+    (ws i : Str) (hws : ∀ x ∈ ws, x = ' ') (hasP : Bool) (ret : Str) (prop : Bool) :
+    loop (ws ++ i) hasP tbl ret prop = loop i hasP tbl ret prop := by
+  induction tbl generalizing ret prop with
+  | nil => rfl
+  | cons v vs ih =>
+    obtain ⟨a, p, rfl, ha⟩ := htbl v (by simp)
+    have ih' := fun r q => ih (fun w hw => htbl w (by simp [hw])) r q
+    simp only [loop, contains_skip_blanks a p ha ws i hws, ih']
+
+/-- blanks in front of the header (as left by the separation of the operands) have no influence -/
+theorem leading_blanks_have_no_influence (tbl : List Str) (htbl : ∀ v ∈ tbl, ∃ a p, v = a :: p ∧ (a == ' ') = false)
+    (ws i : Str) (hws : ∀ x ∈ ws, x = ' ') :
+    extractType tbl (ws ++ i) = extractType tbl i := by
+  unfold extractType
+  have hcut : cutAnno (ws ++ i) = ws ++ cutAnno i := by
+    unfold cutAnno
+    rw [List.takeWhile_append_of_pos (by intro a ha; have := hws a ha; subst this; decide)]
+  simp only [hcut]
+  rw [loop_skip_blanks tbl htbl ws (cutAnno i) hws]
+  have : contains marker (ws ++ cutAnno i) = contains marker (cutAnno i) :=
+    contains_skip_blanks ',' ['p'] (by decide) ws _ hws
+  rw [this]
+
+theorem table_no_blank_head : ∀ v ∈ table, ∃ a p, v = a :: p ∧ (a == ' ') = false := by
+  intro v hv
+  obtain ⟨u, vs, rfl, hu⟩ := table_upper v hv
+  refine ⟨u, vs, rfl, ?_⟩
+  cases h : (u == ' ') with
+  | false => rfl
+  | true => have := eq_of_beq h; subst this; simp at hu
 end IGVerif.Header
